@@ -79,6 +79,15 @@ theorem C04_no_other_keys (p : Parser) (src : Sources) (hp : wfParser p = true) 
   obtain ⟨_, h4⟩ := stage_argv hp ha0 src.argv _ hs'.2 h2
   exact h4.keys
 
+/-- inside the domain the final validation rejects nothing: every leaf of the result has an action -/
+theorem C04_accepts (p : Parser) (src : Sources) (hp : wfParser p = true) (hs : srcWf p src = true)
+    (a0 : Arg) (ha0 : a0 ∈ p.args) : valid p (parseArgs p src) = true := by
+  simp only [valid, List.all_eq_true]
+  intro x hx
+  obtain ⟨a, ha, e⟩ := C04_no_other_keys p src hp hs a0 ha0 x hx
+  rw [e, findArg_dest hp ha]
+  rfl
+
 /-- WITHOUT the guard — what the code does for every input of the domain, the excluded class included:
     the value the environment builds on its own (its `key+` entries appending to nothing) REPLACES the value built by the
     defaults and the default config files; the command line then folds over that -/
